@@ -107,7 +107,7 @@ def check_override(y, m, c, k):
 
 def _check_override_at(args, y, m, c, k):
     out = []
-    exp = Fraction("42.184") + k if y >= 1972 else Fraction(0)
+    exp = Fraction("42.184") + Fraction(k) if y >= 1972 else Fraction(0)
     for lab, kw in (("", {"leap_seconds": k}), ("+utc", {"leap_seconds": k, "utc": True})):
         try:
             a = Epoch(*args, **kw)
@@ -308,7 +308,7 @@ def run_states(block, ctx):
         ctx.evals += 18
         for site, msg, dev in check_forms(y, m, c):
             ctx.viol({"y": y, "m": m, "count": c, "forms": True}, msg, dev=dev, site=site)
-        for k in range(0, 61):
+        for k in list(range(0, 61)) + [0.25, 27.5, 59.75]:        # (a count need not be whole: both directions alike)
             ctx.evals += 2
             for site, msg, dev in check_override(y, m, c, k):
                 ctx.viol({"y": y, "m": m, "count": c, "override": k}, msg, dev=dev, site=site)
